@@ -1,5 +1,5 @@
 (* C13 - Over-long names are cut on a character boundary; over-long icons are dropped. *)
-From Ctap Require Import Base Schema Wire Utf8 Typed Procs Inst Tables Limits WireP TypedP FramingP Utf8P StrsP ObRequestSide FnShapes Shapes ObShapeStrings WellTyped LimitsP Deps ObDeps.
+From Ctap Require Import Base Schema Wire Utf8 Typed Procs Inst Tables Limits WireP TypedP FramingP Utf8P StrsP ObRequestSide FnShapes Shapes ObShapeStrings WellTyped LimitsP Deps ObDeps ObShapeRequest.
 Local Open Scope string_scope.
 Local Open Scope Z_scope.
 
@@ -100,6 +100,10 @@ Proof. exact generated_shapes_strings. Qed.
 Theorem c13_modelled_dependencies_pinned : deps_hold lock_versions cargo_deps = true.
 Proof. exact generated_deps. Qed.
 
+(* further hand-modelled functions this property rests on *)
+Theorem c13_modelled_functions_unchanged_request : shapes_hold fn_shapes shapes_request = true.
+Proof. exact generated_shapes_request. Qed.
+
 Eval vm_compute in "ASSUMPTIONS c13_fits_unchanged". Print Assumptions c13_fits_unchanged.
 Eval vm_compute in "ASSUMPTIONS c13_truncate". Print Assumptions c13_truncate.
 Eval vm_compute in "ASSUMPTIONS c13_floor_never_panics". Print Assumptions c13_floor_never_panics.
@@ -111,3 +115,4 @@ Eval vm_compute in "ASSUMPTIONS c13_generated_conforms". Print Assumptions c13_g
 Eval vm_compute in "ASSUMPTIONS c13_modelled_functions_unchanged_strings". Print Assumptions c13_modelled_functions_unchanged_strings.
 Eval vm_compute in "ASSUMPTIONS c13_lossy_members_always_bounded". Print Assumptions c13_lossy_members_always_bounded.
 Eval vm_compute in "ASSUMPTIONS c13_modelled_dependencies_pinned". Print Assumptions c13_modelled_dependencies_pinned.
+Eval vm_compute in "ASSUMPTIONS c13_modelled_functions_unchanged_request". Print Assumptions c13_modelled_functions_unchanged_request.
